@@ -153,17 +153,22 @@ impl<'de> Deserializer<'de> for NonConstantValueDeserializer<'de> {
         V: de::Visitor<'de>,
     {
         match self.value {
-            NonConstantValue::Variable(_variable) => todo!("Variable?"),
+            NonConstantValue::Variable(_) => DeserializationError::Custom(
+                "Variables are not supported in the arguments of this directive".to_string(),
+            )
+            .wrap_err(),
             NonConstantValue::Integer(i_64) => visitor.visit_i64(*i_64),
             NonConstantValue::Boolean(bool) => visitor.visit_bool(*bool),
             NonConstantValue::String(s) => visitor.visit_str(s.lookup()),
             NonConstantValue::Float(f) => visitor.visit_f64(f.as_float()),
             NonConstantValue::Null => visitor.visit_none(),
-            NonConstantValue::Enum(_) => panic!("Enums not supported when deserializing"),
-            NonConstantValue::List(_) => {
-                panic!("Deserializing from lists is not yet supported here.")
+            NonConstantValue::Enum(_) | NonConstantValue::List(_) | NonConstantValue::Object(_) => {
+                DeserializationError::Custom(
+                    "Enums, lists and objects are not supported in the arguments of this directive"
+                        .to_string(),
+                )
+                .wrap_err()
             }
-            NonConstantValue::Object(_) => panic!("Deserializing objects not yet supported here."),
         }
     }
 
